@@ -13,6 +13,9 @@ func (g *Generator) makeGetSet() {
 	var setIfaces []string
 	onceSet := shoot.MakeSet[string]()
 	for _, f := range g.fields {
+		if f.isShadowed {
+			continue
+		}
 		if onceSet.Has(f.name) {
 			continue
 		}
